@@ -15,6 +15,17 @@ CHECKS = {
              "within 1e-9 of the magnitude of the added terms (checked on every sampled case, not proved).",
         technique="Lean 4 proof over hand-written models + translator-generated formulas + differential correspondence",
         design="§6 C01"),
+    "C03": dict(
+        text="Lean theorems: one step of the Euler, tau-leap (for every vector of Poisson counts) and Gillespie (for every draw) "
+             "engine models leaves every flagged entry unchanged, hence by induction every state after any number of steps; the flag "
+             "consulted for (species s, cell i) is chem[s*n+i] on the Python side and, after the species-major to cell-major "
+             "transposition, on the C++ side (generated index formulas); flagged entries have derivative exactly 0 in the kinetics "
+             "model and in make_dxdtf and are skipped by apply_reaction; rates and propensities of other entries do not depend on "
+             "the flags. Tie: translator (chemostat test text, get_chemostat/get_state_index, subscript inventory) + correspondence "
+             "(dstate, dxdtf, apply_reaction, euler/tau-leap/Gillespie step replay) + oracle on real trajectories of all engines.",
+        note="Lean kernel + {propext, Classical.choice, Quot.sound}; translator; correspondence harness; flags assumed 0/1.",
+        technique="Lean 4 proof over hand-written models + translator-generated formulas + differential correspondence",
+        design="§6 C03"),
     "C06": dict(
         text="Lean theorems: generated unit tables (regenerated from units.py on every run) have their SI meaning "
              "(whole-table kernel evaluation); conversion factor = ratio of SI values; identity, composition, inverse, "
